@@ -7,6 +7,21 @@ BASELINE_OFF = ("cd /repo && cargo nextest run --workspace --no-fail-fast --tool
                 "--test-threads 8 --offline || (cd /repo && cargo test --workspace --no-fail-fast --offline)")
 
 CHECKS = {
+ "C05": dict(
+   technique="exhaustive depth-2 operator matrix + proptest random trees; oracle = grammar-faithful expression parsers per engine (tree equality) and differential evaluation on the SQLite engine against a fully parenthesised reference rendering",
+   text="Exploration: the complete depth-2 matrix (outer operator kind x operand position x inner operator kind, per backend) and random expression trees up to depth 4 (quick) / 6 (thorough), in both rendering modes and in both parenthesis configurations (default and option-more-parentheses). The rendering is parsed with an independent transcription of each engine's expression grammar and must give back the tree that was built; SQLite renderings are also evaluated by the real engine over 125 rows against an explicit reference.",
+   note="MySQL (sql_yacc.yy layering), Postgres (gram.y precedence, a_expr/b_expr) and SQLite (parse.y) grammars are transcribed by hand; constructs where the transcription is uncertain are counted as undecided, never reported. The SQLite transcription is cross-checked by the engine differential.",
+   ref="DESIGN.md 4/C05"),
+ "C18": dict(
+   technique="all pairs and all triples of a constructed value pool + proptest random pairs / tuples / maps; oracle = algebraic laws (equivalence relation, eq => equal hash under several hashers and identical write sequences, HashSet/HashMap agreement) and an independent payload-equality oracle",
+   text="Exploration: all pairs and all triples of a pool of 500 (quick) / 1200 (thorough) values covering every variant, NULLs, NaN payloads, signed zeros, infinities, decimals with different scales, equal instants with different offsets, JSON key orders, nested arrays and vectors, plus random pairs, value tuples and hash-map workloads. Exhaustive over the pool only.",
+   note="Built with the hashable-value feature (harness feature hv). The payload-equality oracle is written in the harness from the payload types' own equality.",
+   ref="DESIGN.md 4/C18"),
+ "C20": dict(
+   technique="generated programs x feature configurations with the compiler as oracle (exhaustive enumeration of the public types scanned from the tree), negative control without thread-safe, plus a generated cross-thread rendering program",
+   text="Exploration over programs and configurations: the set of public data types is derived from /repo/src at run time; for each feature configuration containing thread-safe a generated crate asserts Send and Sync for every type (plus futures holding them across an await) and must compile; the same program without thread-safe must fail at exactly the identifier-bearing types (non-vacuity). A generated binary builds statements on one thread and renders them on others. Exhaustive over the enumerated type set and the listed configurations (4 quick / 90 thorough), nothing beyond.",
+   note="Oracle = rustc via cargo check of generated crates against the working tree (SQV_REPO, default /repo). Generic types are asserted only at the instantiations in the harness's table; macro-generated items are not scanned.",
+   ref="DESIGN.md 4/C20"),
  "C10": dict(
    technique="bounded-exhaustive + proptest call histories; oracle = reference model of the INSERT builder state (stateful / model-based), rendered text lexed and compared with the model",
    text="Exploration: every call history of length <= 5 (quick) / 6 (thorough) over a 15-symbol alphabet of columns / values / values_panic / select_from / or_default_values calls, plus random longer histories with wider rows. Each call's outcome and error payload, the unchanged-on-error guarantee, and the final rendering (3 backends, both modes) are compared with a reference model.",
